@@ -15,7 +15,9 @@ EXTENDS Naturals, Sequences, FiniteSets, TLC, Json
 
 CONSTANTS MaxAttempts
 
-Surfaces == {"validate", "start", "reload"}
+\* reload = Instance.Restart through the API; sigreload = the SIGUSR1 handler: it purges the event
+\* hooks before the restart (the new configuration registers its own) and restores them if it fails
+Surfaces == {"validate", "start", "reload", "sigreload"}
 \* configuration kinds and the stage at which they fail
 ParseFail == {"syntax", "import_missing"}
 EarlySetupFail == {"badarg_timeouts", "badarg_tls"}                     \* directives before 'on'
@@ -57,8 +59,9 @@ Call(a) ==
     /\ snap' = Globals
     \* Start / Restart put the new instance into the instance list first
     /\ insts' = IF a.s = "validate" THEN insts ELSE insts + 1
+    /\ hooks' = IF a.s = "sigreload" THEN 0 ELSE hooks
     /\ pc' = "parse" /\ res' = "none"
-    /\ UNCHANGED <<bound, hooks, htlock, basegen, extra>>
+    /\ UNCHANGED <<bound, htlock, basegen, extra>>
 
 Parse ==
     /\ pc = "parse"
@@ -112,7 +115,7 @@ Commit ==
     /\ pc = "commit"
     /\ CASE att.s = "validate" -> /\ hooks' = snap.hooks /\ UNCHANGED <<insts, basegen, extra, bound>>
          [] att.s = "start"    -> /\ extra' = TRUE /\ UNCHANGED <<hooks, insts, basegen, bound>>
-         [] att.s = "reload"   -> /\ insts' = insts - 1 /\ basegen' = basegen + 1
+         [] att.s \in {"reload", "sigreload"} -> /\ insts' = insts - 1 /\ basegen' = basegen + 1
                                   /\ bound' = {"base", "n1", "n2"}
                                   /\ UNCHANGED <<hooks, extra>>
     /\ pc' = "ret" /\ res' = "ok"
